@@ -513,10 +513,10 @@ def attach_all(run, rt):
     import cnvlib.commands as CM
     import cnvlib.smoothing as SM
     import cnvlib.cnary as CN
-    traced = [("fix.do_fix", FX.do_fix), ("fix.load_adjust_coverages", FX.load_adjust_coverages), ("fix.mask_bad_bins", FX.mask_bad_bins),
-              ("fix.match_ref_to_sample", FX.match_ref_to_sample), ("fix.center_by_window", FX.center_by_window), ("fix.get_edge_bias", FX.get_edge_bias),
-              ("fix.edge_losses", FX.edge_losses), ("fix.edge_gains", FX.edge_gains), ("fix.apply_weights", FX.apply_weights),
-              ("smoothing.rolling_median", SM.rolling_median), ("CopyNumArray.center_all", CN.CopyNumArray.center_all)]
+    traced = [("fix.do_fix", rt.opt(FX, "do_fix")), ("fix.load_adjust_coverages", rt.opt(FX, "load_adjust_coverages")), ("fix.mask_bad_bins", rt.opt(FX, "mask_bad_bins")),
+              ("fix.match_ref_to_sample", rt.opt(FX, "match_ref_to_sample")), ("fix.center_by_window", rt.opt(FX, "center_by_window")), ("fix.get_edge_bias", rt.opt(FX, "get_edge_bias")),
+              ("fix.edge_losses", rt.opt(FX, "edge_losses")), ("fix.edge_gains", rt.opt(FX, "edge_gains")), ("fix.apply_weights", rt.opt(FX, "apply_weights")),
+              ("smoothing.rolling_median", rt.opt(SM, "rolling_median")), ("CopyNumArray.center_all", rt.opt(CN.CopyNumArray, "center_all"))]
     rt.attach(FX, "match_ref_to_sample", name="fix.match_ref_to_sample", pre=pre_match, post=post_match, on_exc=exc_match)
     rt.attach(FX, "center_by_window", name="fix.center_by_window", pre=pre_cbw, post=post_cbw)
     rt.attach(FX, "get_edge_bias", name="fix.get_edge_bias", pre=pre_edge, post=post_edge)
